@@ -51,12 +51,16 @@ Theorem c14_clean_keeps_invariant :
   forall c : conj, conj_num_ok c -> conj_num_ok (conj_clean c).
 Proof. exact conj_clean_ok. Qed.
 
-(* _partial: the index arithmetic of cleanFlagConditions (`i -= 2` after removing a duplicate sub-query) is safe
-   because a flag condition never names a sub-query twice; proved here for the conditions a filter produces, the
-   preservation through invert/clean is not proved (checked by the correspondence runs). *)
-Theorem c14_flag_subqueries_distinct_partial :
-  forall a : atom, Forall (Forall flag_subs_ok) (conds_of_atom a).
-Proof. exact conds_of_atom_flag_subs. Qed.
+(* no index underflow in cleanFlagConditions (`i -= 2` after removing a duplicate sub-query). (a) Every flag condition
+   in every set the normaliser builds, for EVERY expression, names each sub-query at most once. (b) On such a condition
+   the duplicate loop removes nothing, so the index is never decremented. *)
+Theorem c14_flag_subqueries_distinct :
+  forall (e : expr) (cs : cset), norm e = Some cs -> Forall (Forall flag_subs_ok) cs.
+Proof. exact norm_flag_subs. Qed.
+
+Theorem c14_flag_duplicate_loop_idle :
+  forall l : list N, NoDup l -> subs_cancel (nsort l) = nsort l.
+Proof. exact flag_subs_loop_idle. Qed.
 
 Example c14_fuel_example : cf_search (Z.to_nat 12) 11 12 18 = Some 6.
 Proof. reflexivity. Qed.
